@@ -728,6 +728,26 @@ fn status_bytes(rep: &mut Report, only: Option<u64>) {
         if let Some(o) = (0..=255u8).find(|o| *o != b && all[usize::from(*o)] == all[usize::from(b)]) {
             rep.violate("two status bytes convert to the same status value", format!("{b:#04x} and {o:#04x} -> {:?}", all[usize::from(b)]), case.clone());
         }
+        // every byte belongs to exactly one class of status value, and that class is where the total
+        // conversion puts it
+        {
+            use passkey_types::ctap2::{Ctap2Code, Ctap2Error, ExtensionError, U2FError, UnknownSpecError, VendorError};
+            let classes = [
+                ("CTAP1 / U2F", U2FError::try_from(b).ok().map(|e| StatusCode::Ctap1(e))),
+                ("CTAP2 (defined)", Ctap2Error::try_from(b).ok().map(|e| StatusCode::Ctap2(Ctap2Code::from(e)))),
+                ("extension range", ExtensionError::try_from(b).ok().map(|e| StatusCode::Ctap2(Ctap2Code::from(e)))),
+                ("vendor range", VendorError::try_from(b).ok().map(|e| StatusCode::Ctap2(Ctap2Code::from(e)))),
+                ("reserved / undefined", UnknownSpecError::try_from(b).ok().map(|e| StatusCode::Ctap2(Ctap2Code::from(e)))),
+            ];
+            let taken: Vec<&str> = classes.iter().filter(|c| c.1.is_some()).map(|c| c.0).collect();
+            // (byte 0x00 is both CTAP1 success and CTAP2 OK by specification)
+            if taken.len() != 1 && b != 0 {
+                rep.violate("a status byte does not belong to exactly one class of status value", format!("{b:#04x}: {taken:?}"), case.clone());
+            } else if b != 0 && classes.iter().find_map(|c| c.1.as_ref()) != Some(&all[usize::from(b)]) {
+                rep.violate("a status byte's total conversion is not the value of the class it belongs to", format!("{b:#04x}: StatusCode::from gives {:?}, its class {taken:?}", all[usize::from(b)]), case.clone());
+            }
+            rep.count("status_classes_checked");
+        }
         // (g) client mapping, in isolation
         let w = WebauthnError::from(StatusCode::from(b));
         let want = if b == 0x2E { WebauthnError::CredentialNotFound } else { WebauthnError::AuthenticatorError(b) };
